@@ -197,6 +197,21 @@ CLAIMED["C18"] = dict(
     note=_NOTE + " Needs `garde` / `validator`: decided in the `full` (quick) and `garde`, `validator` (thorough) configurations.",
     technique="static analysis: sibling agreement over the entry-point protocol, must-not-return-in-loop reachability, save/restore path search on MIR")
 
+CLAIMED["C01"] = dict(
+    level=("Static census with tiered discharge over everything that can run while deserializing or rendering (all modules but the "
+           "serializer's; 293 panic-capable constructs in the default configuration, 363 with all features): tier 1 generic guards "
+           "recognised from the CFG (constant operands, small-constant increments of 64-bit counters, sums of in-memory lengths, "
+           "subtractions / indices dominated by the matching comparison, non-zero constant divisors, pointer checks under "
+           "forbid(unsafe_code)); tier 2 invariant rules (peek-then-take, KeyNode::Scalar construction, slice after starts_with, "
+           "index after ensure-capacity / resize, bounds after length check, anchor-store borrow scope); tier 3 a reviewed table "
+           "keyed by function / construct / operands, with stale rows reported. Every loop of the pump, skipper, iterators, mapping "
+           "access and capture / skip helpers makes progress on each cycle; every recursive cycle of the crate-local call graph is "
+           "reviewed; parser pulls are converted, never unwrapped; the default budget bounds depth by a small constant. NOT decided "
+           "(declared n/a in DESIGN): stack exhaustion at the depth limit, allocation failure, panics / hangs inside dependencies; "
+           "tier-3 rows are a reading, not a proof."),
+    note=_NOTE + " Tier-3 reasons in ssrules/tables/C01_reviewed.json are human review.",
+    technique="static analysis: panic-site census over MIR assert / call terminators with guard-dominance discharge, invariant rules, loop-progress (SCC) and recursion-cycle census")
+
 NOT_APPLICABLE = {("C%02d" % i): _NB for i in range(1, 21) if ("C%02d" % i) not in CLAIMED}
 
 CLAIMED["C10"] = dict(
@@ -377,5 +392,20 @@ CLAIMED["C18"] = dict(
            "shape (PathMap::search)."),
     note=_NOTE + " Needs `garde` / `validator`: decided in the `full` (quick) and `garde`, `validator` (thorough) configurations.",
     technique="static analysis: sibling agreement over the entry-point protocol, must-not-return-in-loop reachability, save/restore path search on MIR")
+
+CLAIMED["C01"] = dict(
+    level=("Static census with tiered discharge over everything that can run while deserializing or rendering (all modules but the "
+           "serializer's; 293 panic-capable constructs in the default configuration, 363 with all features): tier 1 generic guards "
+           "recognised from the CFG (constant operands, small-constant increments of 64-bit counters, sums of in-memory lengths, "
+           "subtractions / indices dominated by the matching comparison, non-zero constant divisors, pointer checks under "
+           "forbid(unsafe_code)); tier 2 invariant rules (peek-then-take, KeyNode::Scalar construction, slice after starts_with, "
+           "index after ensure-capacity / resize, bounds after length check, anchor-store borrow scope); tier 3 a reviewed table "
+           "keyed by function / construct / operands, with stale rows reported. Every loop of the pump, skipper, iterators, mapping "
+           "access and capture / skip helpers makes progress on each cycle; every recursive cycle of the crate-local call graph is "
+           "reviewed; parser pulls are converted, never unwrapped; the default budget bounds depth by a small constant. NOT decided "
+           "(declared n/a in DESIGN): stack exhaustion at the depth limit, allocation failure, panics / hangs inside dependencies; "
+           "tier-3 rows are a reading, not a proof."),
+    note=_NOTE + " Tier-3 reasons in ssrules/tables/C01_reviewed.json are human review.",
+    technique="static analysis: panic-site census over MIR assert / call terminators with guard-dominance discharge, invariant rules, loop-progress (SCC) and recursion-cycle census")
 
 NOT_APPLICABLE = {("C%02d" % i): _NB for i in range(1, 21) if ("C%02d" % i) not in CLAIMED}
